@@ -5,9 +5,12 @@
      runtime/src/vm/globals/access.rs                   (set_global* clear call_site_cache)
      bytecode/src/asm/binary.rs:write_function          (78 -> 77, both cache words := 0)
      backend/src/compiler/{emit.rs,constructors.rs}     (slot ids, 104 emitted for known natives)
-   Definitions only.  The model is of the code that exists: the 78 fast path uses
-   call_site_cache[slot] without comparing against the current global and without checking
-   that the entry was written by this site.
+   Definitions only.  The model is of the code that exists (after the repairs ba4e0b3 and 539f843):
+   every cache entry records the callee it was built from; the 78 fast path uses
+   call_site_cache[slot] only when that owner is the callee cached at the site and the global still
+   denotes it; a 104 site whose global no longer denotes the cached native rewrites itself to 77 and
+   is dispatched again.  The flags MONO_FAST_PATH_VALIDATES / NATIVE_SITE_FOLLOWS_REBINDING come from
+   the translator: when the source loses those checks the model follows and the proofs break.
 
    Abstractions: a global is identified by a name id (the per-function index layouts and
    their synchronisation are C14's model); heap objects are identified by their heap index;
@@ -35,11 +38,11 @@ Inductive form :=
 Definition opcode_of_form (f : form) : N :=
   match f with Plain => OP_CALL_GLOBAL | Mono _ => OP_CALL_GLOBAL_MONO | Native _ => OP_CALL_GLOBAL_NATIVE end.
 
-(* s_slotted: emitted as CallGlobal with a slot id (false: emitted as CallGlobalNative, which
-   has no slot id); s_live: the bytecode containing the site can still be executed *)
-Record site := mkSite { s_live : bool; s_slotted : bool; s_form : form; s_slot : N; s_idx : N }.
+(* s_live: the bytecode containing the site can still be executed; s_slot: the slot id in cache
+   word 2 (meaningless while the site holds opcode 104) *)
+Record site := mkSite { s_live : bool; s_form : form; s_slot : N; s_idx : N }.
 
-(* CallSiteCacheEntry: raw code pointers of object e_code; is_closure *)
+(* CallSiteCacheEntry: code pointers of, and `owner` =, object e_code; is_closure *)
 Record entry := mkEntry { e_code : N; e_clo : bool }.
 
 Record state := mkState {
@@ -82,7 +85,7 @@ Fixpoint upd_nth {A} (n : nat) (f : A -> A) (l : list A) : list A :=
   end.
 
 Definition set_form (f : form) (s : site) : site :=
-  mkSite (s_live s) (s_slotted s) f (s_slot s) (s_idx s).
+  mkSite (s_live s) f (s_slot s) (s_idx s).
 
 Definition with_site (st : state) (sid : N) (f : site -> site) : state :=
   mkState (globals st) (heap st) (cache st) (upd_nth (N.to_nat sid) f (sites st)).
@@ -147,25 +150,38 @@ Definition mono_miss (st : state) (sid : N) (s : site) : state * outcome :=
 Definition gval_is (v : gval) (p : N) : bool := match v with GPtr q => q =? p | _ => false end.
 
 Definition op_call_global_mono (st : state) (sid : N) (s : site) (p : N) : state * outcome :=
-  if negb (p =? 0)
-     && (negb MONO_FAST_PATH_VALIDATES || gval_is (gget st (s_idx s)) p) then
+  if negb (p =? 0) then
     match cache_entry (cache st) (s_slot s) with
     | Some e =>
-        let use := (st, match hget st (e_code e) with
-                        | Some _ => ORan (e_code e) p
-                        | None => OUseAfterFree end) in
-        if e_clo e then
-          match hget st p with                          (* upvalues are fetched from the cached pointer *)
-          | Some o => if is_clo o then use else (st, OConfused)
-          | None => (st, OConfused)
-          end
-        else use
+        (* the entry must have been built from the callee cached at this site, and the global must
+           still denote that callee *)
+        if negb MONO_FAST_PATH_VALIDATES || ((e_code e =? p) && gval_is (gget st (s_idx s)) p) then
+          let use := (st, match hget st (e_code e) with
+                          | Some _ => ORan (e_code e) p
+                          | None => OUseAfterFree end) in
+          if e_clo e then
+            match hget st p with                          (* upvalues are fetched from the cached pointer *)
+            | Some o => if is_clo o then use else (st, OConfused)
+            | None => (st, OConfused)
+            end
+          else use
+        else mono_miss st sid s
     | None => mono_miss st sid s
     end
   else mono_miss st sid s.
 
 (* opcode 104 *)
-Definition op_call_global_native (st : state) (sid : N) (s : site) (p : N) : state * outcome :=
+Definition is_native_at (st : state) (q : N) : bool :=
+  match hget st q with Some o => match o_kind o with KNat => true | _ => false end | None => false end.
+
+(* the global no longer denotes the cached native / denotes no native at all *)
+Definition despecialise (st : state) (s : site) (p : N) : bool :=
+  match gget st (s_idx s) with
+  | GPtr q => (negb (p =? 0) && negb (q =? p)) || negb (is_native_at st q)
+  | _ => negb (p =? 0)
+  end.
+
+Definition native_body (st : state) (sid : N) (s : site) (p : N) : state * outcome :=
   if p =? 0 then
     match resolve st (s_idx s) with
     | ROk q o =>
@@ -180,6 +196,13 @@ Definition op_call_global_native (st : state) (sid : N) (s : site) (p : N) : sta
     | Some o => match o_kind o with KNat => (st, ONative p) | _ => (st, OErr ENotCallable) end
     | None => (st, OErr ENotCallable)
     end.
+
+Definition op_call_global_native (st : state) (sid : N) (s : site) (p : N) : state * outcome :=
+  if NATIVE_SITE_FOLLOWS_REBINDING && despecialise st s p then
+    (* opcode := 77, both cache words := 0 (slot id 0), dispatched again *)
+    let s' := mkSite (s_live s) Plain 0 (s_idx s) in
+    op_call_global (with_site st sid (fun _ => s')) sid s'
+  else native_body st sid s p.
 
 Definition call (st : state) (sid : N) : state * outcome :=
   match nth_error (sites st) (N.to_nat sid) with
@@ -197,7 +220,7 @@ Definition call (st : state) (sid : N) : state * outcome :=
 (* a call site as the compiler emits it: d_native = CallGlobalNative (no slot id) *)
 Record sdecl := mkDecl { d_native : bool; d_slot : N; d_idx : N }.
 Definition site_of_decl (base : N) (d : sdecl) : site :=
-  mkSite true (negb (d_native d)) (if d_native d then Native 0 else Plain) (base + d_slot d) (d_idx d).
+  mkSite true (if d_native d then Native 0 else Plain) (base + d_slot d) (d_idx d).
 
 Inductive event :=
 | Call (sid : N)
@@ -218,7 +241,7 @@ Fixpoint map_sites (f : N -> site -> site) (i : N) (l : list site) : list site :
 Definition reload_site (s : site) : site :=
   match s_form s with
   | Native _ => s
-  | _ => mkSite (s_live s) (s_slotted s) Plain 0 (s_idx s)
+  | _ => mkSite (s_live s) Plain 0 (s_idx s)
   end.
 
 Definition step (st : state) (ev : event) : state * outcome :=
@@ -233,7 +256,7 @@ Definition step (st : state) (ev : event) : state * outcome :=
   | Retire sids =>
       (mkState (globals st) (heap st) (cache st)
                (map_sites (fun i s => if memb i sids
-                                      then mkSite false (s_slotted s) (s_form s) (s_slot s) (s_idx s)
+                                      then mkSite false (s_form s) (s_slot s) (s_idx s)
                                       else s) 0 (sites st)), ONone)
   | SaveReload sids =>
       (mkState (globals st) (heap st) (cache st)
@@ -244,7 +267,7 @@ Definition step (st : state) (ev : event) : state * outcome :=
 
 (* the slot counter a REPL input starts from, as driver/src/api/repl.rs builds its compiler *)
 Definition used_slots (st : state) : N :=
-  fold_right (fun s m => if s_slotted s then N.max m (N.succ (s_slot s)) else m) 0 (sites st).
+  fold_right (fun s m => match s_form s with Native _ => m | _ => N.max m (N.succ (s_slot s)) end) 0 (sites st).
 Definition repl_slot_base (st : state) : N :=
   if REPL_SLOT_COUNTER_RESTARTS then 0 else used_slots st.
 
@@ -287,45 +310,25 @@ Fixpoint run (stp : state -> event -> state * outcome) (st : state) (h : list ev
 Fixpoint final (stp : state -> event -> state * outcome) (st : state) (h : list event) : state :=
   match h with [] => st | e :: r => final stp (fst (stp st e)) r end.
 
-(* ---- guards (decidable, over the specification's view of the history) -------------------- *)
-Fixpoint enum_from {A} (i : N) (l : list A) : list (N * A) :=
-  match l with [] => [] | x :: r => (i, x) :: enum_from (N.succ i) r end.
-
-Definition slot_user (s : site) : bool := s_live s && s_slotted s.
-
-(* slot ids injective over live sites, and inside the table *)
-Definition unique_slots (st : state) : bool :=
-  let es := enum_from 0 (sites st) in
-  forallb (fun a => forallb (fun b =>
-     (fst a =? fst b) || negb (slot_user (snd a) && slot_user (snd b)) || negb (s_slot (snd a) =? s_slot (snd b))) es) es
-  && forallb (fun s => negb (slot_user s) || (s_slot s <? MAX_CALL_SITE_SLOTS)) (sites st).
-
-Definition native_bound (st : state) (idx : N) : bool :=
-  match resolve st idx with ROk _ o => match o_kind o with KNat => true | _ => false end | _ => false end.
-
+(* ---- what a history may assume of its environment (decidable) ------------------------------ *)
 Definition bound_somewhere (st : state) (p : N) : bool :=
   existsb (fun kv => gval_is (gget st (fst kv)) p) (globals st).
 
-(* what the guarded theorem asks of one event, given the state it is applied to *)
+(* No restriction on definitions, rebindings, sites, units, retiring or reloading.  Only:
+   slot ids fit the cache table (the VM refuses larger ones), an allocation uses a free heap
+   index, and a collection frees no object that is bound to a global (C03). *)
 Definition event_ok (st : state) (ev : event) : bool :=
   match ev with
-  | Call sid =>
-      (* a site emitted as CallGlobalNative is only used while its name denotes a native *)
-      match nth_error (sites st) (N.to_nat sid) with
-      | Some s => s_slotted s || negb (s_live s) ||
-                  match resolve st (s_idx s) with ROk _ o => match o_kind o with KNat => true | _ => false end | _ => true end
-      | None => true
-      end
-  | SetGlobal idx _ => negb (native_bound st idx)          (* a name bound to a native is not rebound *)
-  | Alloc p _ => match hget st p with None => true | Some _ => false end   (* allocation uses a free heap index *)
-  | Collect freed => forallb (fun p => negb (bound_somewhere st p)) freed   (* C03: bound objects are reachable *)
+  | NewUnit ds base => forallb (fun d => base + d_slot d <? MAX_CALL_SITE_SLOTS) ds
+  | Alloc p _ => match hget st p with None => true | Some _ => false end
+  | Collect freed => forallb (fun p => negb (bound_somewhere st p)) freed
   | _ => true
   end.
 
-Fixpoint hist_ok (st : state) (h : list event) : bool :=
+Fixpoint env_ok (st : state) (h : list event) : bool :=
   match h with
-  | [] => unique_slots st
-  | e :: r => unique_slots st && event_ok st e && hist_ok (fst (spec_step st e)) r
+  | [] => true
+  | e :: r => event_ok st e && env_ok (fst (spec_step st e)) r
   end.
 
 (* ---- program level (used by the tie): a call runs the callee's body, which makes calls ---- *)
@@ -412,99 +415,3 @@ Definition obs_eqb (a b : list (list N)) : bool :=
              end) x y) && eq2 a' b'
      | _, _ => false
      end) a b.
-
-(* ---- which guards of the theorem fail somewhere along a history (classification of failures) ---- *)
-(* a live CallGlobalNative site whose name currently denotes a user function or closure *)
-Definition native_site_mismatch (st : state) : bool :=
-  existsb (fun s => s_live s && negb (s_slotted s) &&
-                    match resolve st (s_idx s) with
-                    | ROk _ o => match o_kind o with KNat => false | _ => true end
-                    | _ => false end) (sites st).
-
-Fixpoint guard_scan (st : state) (h : list event) (u n : bool) : bool * bool :=
-  match h with
-  | [] => (u || negb (unique_slots st), n || native_site_mismatch st)
-  | e :: r =>
-      guard_scan (fst (spec_step st e)) r (u || negb (unique_slots st))
-                 (n || negb (event_ok st e) || native_site_mismatch st)
-  end.
-
-(* [slot ids not injective over live sites at some point; native guard violated at some point] *)
-Definition guard_flags (inputs : list (list event)) : list N :=
-  let '(u, n) := guard_scan init (concat inputs) false false in
-  [if u then 1 else 0; if n then 1 else 0].
-
-(* ---- diagnosis (classification of failures by the tie): the first call in a session whose
-   callee differs from the specification's, and the kind of site it happened at *)
-(* another live slot-using site has the same slot id *)
-Definition shares_slot (st : state) (sid : N) (s : site) : bool :=
-  existsb (fun a => negb (fst a =? sid) && slot_user (snd a) && (s_slot (snd a) =? s_slot s))
-          (enum_from 0 (sites st)).
-
-(* 1 = a 78 site whose slot is shared with another live site, or whose cache entry is not the one it
-       wrote (slot collision);
-   4 = a 78 site with a slot of its own that used its own, outdated entry (invalidation missing);
-   2 = a 104 site; 3 = a 77 site; 0 = none *)
-Definition cause_of (st : state) (sid : N) : N :=
-  match nth_error (sites st) (N.to_nat sid) with
-  | Some s =>
-      match s_form s with
-      | Mono p =>
-          if shares_slot st sid s then 1 else
-          match cache_entry (cache st) (s_slot s) with
-          | Some e => if e_code e =? p then 4 else 1
-          | None => 1
-          end
-      | Native _ => 2
-      | Plain => 3
-      end
-  | None => 0
-  end.
-
-Fixpoint diag_call (fuel : nat) (depth : N) (st : state) (sid : N) : state * status * N :=
-  match fuel with
-  | O => (st, SFuel, 0)
-  | S f =>
-      let (st1, o) := call st sid in
-      if negb (same_callee o (spec_call st sid)) then (st1, SErr, cause_of st sid) else
-      match o with
-      | ORan code self =>
-          if MAX_FRAMES <=? depth then (st1, SOverflow, 0)
-          else match body_tag st1 code self with
-               | None => (st1, SUaf, 0)
-               | Some (_, body) =>
-                   (fix go (ss : list N) (st : state) {struct ss} : state * status * N :=
-                      match ss with
-                      | [] => (st, SOk, 0)
-                      | s :: r =>
-                          match diag_call f (depth + 1) st s with
-                          | (st2, SOk, 0) => go r st2
-                          | other => other
-                          end
-                      end) body st1
-               end
-      | ONative _ => (st1, SOk, 0)
-      | _ => (st1, SErr, 0)
-      end
-  end.
-
-Fixpoint diag_input (fuel : nat) (st : state) (evs : list event) : state * status * N :=
-  match evs with
-  | [] => (st, SOk, 0)
-  | Call sid :: r =>
-      match diag_call fuel 1 st sid with
-      | (st1, SOk, 0) => diag_input fuel st1 r
-      | other => other
-      end
-  | e :: r => diag_input fuel (fst (step st e)) r
-  end.
-
-Fixpoint diag_session (fuel : nat) (st : state) (inputs : list (list event)) : N :=
-  match inputs with
-  | [] => 0
-  | i :: r => let '(st1, _, c) := diag_input fuel st i in
-              if c =? 0 then diag_session fuel st1 r else c
-  end.
-
-Definition diagnose (inputs : list (list event)) : N :=
-  diag_session (S (S (N.to_nat MAX_FRAMES))) init inputs.
